@@ -259,7 +259,23 @@ func journalWorkload(c Case, res *CaseResult, each func(jr journalRun, label str
 		jr3 := runJournalScenario(sc, p, true)
 		each(jr3, "jpfail")
 	}
-	res.Evals = 3
+	// two transactions on one EVM object with EVM.Reset in between (how a chain reuses an EVM inside a block):
+	// the journal of both must be attributed through the same call tree
+	{
+		fs := h.NewForkSession(sc.World, h.EnvSpec{Fork: sc.Fork}, h.ForkOpts{Debug: true, RecSteps: true})
+		sj := attachShadowJournal(fs)
+		ir := fs.Invoke(sc.Tx)
+		if ir.Panic == "" {
+			fs.EVM.Reset(fs.EVM.TxContext, fs.EVM.StateDB)
+			ir = fs.Invoke(sc.Tx)
+		}
+		jr4 := journalRun{fs: fs, sj: sj, ir: ir, desc: sc.desc() + " (twice on one EVM, Reset in between)"}
+		if ir.Panic == "" {
+			jr4.sh = buildShadow(fs.L, fs.Rules.IsEIP150)
+		}
+		each(jr4, "reset")
+	}
+	res.Evals = 4
 	res.Set("forks", sc.Fork.String())
 	if c.Seed%43 == 0 {
 		res.Sample = map[string]interface{}{"case": c, "scenario": sc.desc()}
